@@ -624,11 +624,22 @@ def run(ctx):
     ]
     ctx._declinable = []
     ctx._reported = {}
-    generate(ctx)
-    ctx.log("translated; proving")
-    ctx.prove("C28/Props.v")
-    ctx.log("proved: %d/%d; broken=%r" % (ctx.cov["discharged"], ctx.cov["obligations"], ctx.broken))
-    check_findings(ctx)
+    model_current = True
+    try:
+        generate(ctx)
+    except Exception as e:  # noqa  (fail-closed translator: the model can no longer be regenerated)
+        model_current = False
+        ctx.broken.append("translator:gen/c28_pypl.py cannot translate the current sources: %s" % (str(e)[:300],))
+        ctx.log("translator failed: %s" % e)
+        # the obligations exist but cannot be checked against the current code: count them as not discharged
+        import re
+        with open(os.path.join(vf.THEORIES, "C28", "Props.v")) as f:
+            ctx.cov["obligations"] += len(re.findall(r"(?m)^\s*Theorem\s", vf.strip_coq_comments(f.read())))
+    if model_current:
+        ctx.log("translated; proving")
+        ctx.prove("C28/Props.v")
+        ctx.log("proved: %d/%d; broken=%r" % (ctx.cov["discharged"], ctx.cov["obligations"], ctx.broken))
+        check_findings(ctx)
     ctx.log("running the implementation")
     if ctx.replay:
         replay(ctx)
@@ -639,6 +650,10 @@ def run(ctx):
         cases += c
         metas += m
     run_engine_exports(ctx)
+    if not model_current:
+        ctx.notes.append("model is stale (translator failed): the Coq side of the tie was skipped, the implementation "
+                         "was still judged against the property on %d inputs" % ctx.cov["evaluations"])
+        return
     ctx.log("evaluating %d model cases in Coq" % len(cases))
     try:
         bad = ctx.coq_failing(HEADER, cases, name="c28", shard=ctx.n(450, 1500))
